@@ -19,6 +19,9 @@ JSection(r) ==
        /\ Clause(i, "C13.section.finite", o.finite)
        /\ Clause(i, "C13.section.on_plane_and_surface_each_segment_once",
                  SecOK(r, T, vp, fs, o))
+       \* the length a curve reports is the length of the polygon through its vertices (to 2^-24 relative), hence - the vertices
+       \* being the exact crossing points, each segment once - the analytic perimeter of the cross-section
+       /\ Clause(i, "C13.section.length_is_perimeter", Len(o.lenres) = Len(o.curves) /\ \A a \in 1..Len(o.lenres) : AbsC(o.lenres[a]) <= 64)
        /\ SecOK(r, T, vp, fs, o) =>
             /\ (Watertight(fs) => Clause(i, "C13.section.closed_for_watertight", AllClosed(T, vp, fs, r.n, r.dn, r.dd, o.curves)))
             /\ (r.convex => Clause(i, "C13.section.one_loop_for_convex",
